@@ -21,7 +21,9 @@ GHOST static void admitted(int id, int via_try) {
     fmc_fail("semaphore: over-admission: %d successful waits with initial=%d and %d posts begun (fiber %d, %s)", g_waits_ok, initial, g_posts_begun, id, via_try ? "trywait" : "wait");
   fmc_obs(id * 2 + via_try);
 }
-GHOST static void fin(void) { g_finished++; }
+static int g_fin1;
+GHOST static void fin(int id) { g_finished++; if (id == 1) g_fin1 = 1; }
+GHOST static int fin1(void) { return g_fin1; }
 
 static const char* scripts[][3] = {
     {"W", "P", ""},      // 0
@@ -32,12 +34,22 @@ static const char* scripts[][3] = {
     {"W", "PT", ""},     // 5
     {"W", "W", "P"},     // 6: one waiter stays blocked
     {"TW", "PP", ""},    // 7
+    {"P", "W", "W"},     // 8: init=1: a post that races with a wait crossing zero and a second wait going negative
+    {"P", "WW", ""},     // 9: the same with both waits in one fiber
+    {"PP", "W", "W"},    // 10
+    {"P", "W", "gW"},    // 11: as 8, the second waiter starts only after the first one got in ('g' = gate)
+    {"P", "P", "gWW"},   // 12: init=0: a post losing its exchange to another post, then the counter goes negative
 };
 
 static void* body(void* p) {
   int id = (int)(intptr_t)p;
   for (const char* s = scripts[shape][id]; *s; s++) {
-    if (*s == 'W') {
+    if (*s == 'g') {
+      // gate: this fiber goes on only after fiber 1 has finished its script. It polls with
+      // fiber_yield (never an engine-level wait: a fiber that occupies its kernel thread would
+      // keep the fibers queued behind it in that thread's private batch from ever running)
+      while (!fin1()) fiber_yield();
+    } else if (*s == 'W') {
       wait_begin();
       fiber_semaphore_wait(&S);
       admitted(id, 0);
@@ -53,7 +65,7 @@ static void* body(void* p) {
       post_end();
     }
   }
-  fin();
+  fin(id);
   return 0;
 }
 
@@ -79,8 +91,16 @@ int harness_main(void) {
   initial = fmc_param("init", 0);
   rt_start();
   fiber_semaphore_init(&S, initial);
+  fmc_focus(&S, sizeof S);
   fmc_begin();
   for (g_nf = 0; g_nf < 3 && scripts[shape][g_nf][0]; g_nf++) fiber_detach(fiber_create(STK, body, (void*)(intptr_t)g_nf));
+  // -Dspread=1: the main fiber never switches fibers (engine-level yields only), so with N=3 the
+  // fibers are all stolen and run by the two OTHER kernel threads from the first step on; no
+  // pre-emption is spent on getting them onto different threads
+  if (fmc_param("spread", 0)) {
+    rt_quiescent_hook = at_quiescence;
+    for (;;) fmc_yield();
+  }
   rt_park_until_quiescent(at_quiescence);
   return 0;
 }
